@@ -127,6 +127,10 @@ func runCase(c *core.Ctx, i int) {
 		tmCase(c, rng)
 		return
 	}
+	if i%43 == 21 {
+		interleaveCase(c, rng)
+		return
+	}
 	switch x := rng.Intn(100); {
 	case x < 58:
 		layoutCase(c, rng, false)
